@@ -19,12 +19,14 @@ def run_rules(chk, prop, fnames, spec_by_fn=None, default_spec=None):
         RuleRunner(chk, prop, fn, CONTRACTS[fn], CONTRACTS, spec).run()
     st = alg.lemma_stats()
     chk.extra["lemmas"] = dict(total=st["total"], mathlib_named=st["mathlib_named"], definitional=st["definitional"],
-                               assumed=[f"{n}: {why}" for n, why in st["assumed"]])
+                               assumed=[f"{n}: {why}" for n, why in st["assumed"]],
+                               lean_checked=st.get("lean_checked", []), n_lean_checked=len(st.get("lean_checked", [])), lean_record=st.get("lean_record"))
     chk.extra["arity_bound"] = 3 if chk.tier == "quick" else 4
     chk.extra["dependency_contracts_used"] = sorted(symfns.USED)
     chk.trust(DEPENDENCY_NOTE)
-    chk.trust("lemma library vcgen/alg.py: %d axioms (%d named after the Mathlib theorem they restate, %d definitional, %d ASSUMED with citation)"
-              % (st["total"], st["mathlib_named"], st["definitional"], len(st["assumed"])))
+    chk.trust("lemma library vcgen/alg.py: %d axioms (%d named after the Mathlib theorem they restate - %d of these have a restatement in lemmas/Lemmas.lean that Lean 4 "
+              "checked against Mathlib, correspondence by inspection - , %d definitional, %d ASSUMED with citation)"
+              % (st["total"], st["mathlib_named"], len(st.get("lean_checked", [])), st["definitional"], len(st["assumed"])))
     for n, why in st["assumed"]:
         chk.assume(f"lemma {n} ASSUMED: {why}")
     chk.assume("operator dimensions are >= 1")
